@@ -13,6 +13,7 @@ Extraction "c14_model.ml"
   c14_stride_to_left c14_stride_to_right c14_relayout c14_tuples c14_validb c14_fits
   c14_get c14_set c14_mdspan_offset c14_mdspan_get c14_mdspan_set c14_md_size
   c14_mdarray_new c14_mdarray_get c14_mdarray_set c14_copy_loop c14_mdarray_from_mdspan
+  c14_default_acc c14_view_cell c14_view_get c14_copy_loop_acc c14_mdarray_from_mdspan_acc
   c14_view_offset c14_view_swap c14_view_assign c14_array_swap c14_array_assign c14_array_get c14_mapping_eqb
   c14_span_first c14_span_last c14_span_subspan c14_span_at c14_span_index c14_span_front c14_span_back
   c14_prod c14_dot c14_spec_strides_right c14_spec_strides_left c14_spec_right c14_spec_left c14_spec_fill
